@@ -490,7 +490,8 @@ impl Circle2 {
             return None;
         }
 
-        let angle = f64::asin(self.ball.radius / d);
+        // The angle at the center between the direction to the point and a tangent point
+        let angle = f64::acos(self.ball.radius / d);
         let theta = f64::atan2(point.y - self.center.y, point.x - self.center.x);
 
         let p0 = Point2::new(
